@@ -30,6 +30,7 @@ func c13Letters() []cletter {
 		{"CopyDone", "done", "", pgproto.CopyDone()},
 		{"CopyFail(why)", "fail", "", pgproto.CopyFail("why")},
 		{"CopyData(xyz\\n)", "data", "xyz\n", pgproto.CopyData([]byte("xyz\n"))},
+		{"CopyFail(reason without NUL)", "fail", "", pgproto.Msg('f', []byte("boom"))},
 		{"Sync", "sync", "", pgproto.Sync()},
 		{"Query(ok)", "query", "", pgproto.Query(progRows)},
 		{"CopyData()", "data", "", pgproto.CopyData(nil)},
@@ -602,7 +603,85 @@ func c13BinaryCut(emit explore.Emit) {
 	}
 }
 
+// c13Wide: CopyInResponse announces one format code per declared column, for every column count.
+func c13Wide(emit explore.Emit) {
+	for _, n := range []int{1, 2, 15, 16, 17, 31, 32, 33, 63, 64, 65, 96, 127, 128, 129, 255, 256, 257, 1000, 1600} {
+		for _, bin := range []bool{false, true} {
+			n, bin := n, bin
+			emit(explore.Case{Family: "wide-copy", Size: 2, Desc: func() any { return map[string]any{"columns": n, "binary": bin} },
+				Run: func() explore.Result {
+					var res explore.Result
+					res.Outcome = "completed"
+					res.Key = fmt.Sprint("wide", n, bin)
+					cols := make(wire.Columns, n)
+					for i := range cols {
+						cols[i] = wire.Column{Name: fmt.Sprintf("c%d", i), Oid: 25}
+					}
+					format := wire.TextFormat
+					if bin {
+						format = wire.BinaryFormat
+					}
+					parse := func(ctx context.Context, q string) (wire.PreparedStatements, error) {
+						return wire.Prepared(wire.NewStatement(func(ctx context.Context, w wire.DataWriter, p []wire.Parameter) error {
+							cr, err := w.CopyIn(format)
+							if err != nil {
+								return err
+							}
+							for {
+								if err := cr.Read(); err != nil {
+									if err == io.EOF {
+										return w.Complete("COPY 0")
+									}
+									return err
+								}
+							}
+						}, wire.WithColumns(cols))), nil
+					}
+					one, err := harness.StartOne(parse, wire.MessageBufferSize(1<<20))
+					if err != nil {
+						res.Engine = err.Error()
+						return res
+					}
+					defer one.Stop()
+					one.Step(pgproto.Startup("user", "u"))
+					out, _ := one.Step(pgproto.Query("copy"))
+					ms, perr := pgproto.ParseBackend(out)
+					if perr != nil {
+						res.Fail("reply-grammar", fmt.Sprintf("COPY into %d columns: %v", n, perr))
+						return res
+					}
+					var g *pgproto.BMsg
+					for i := range ms {
+						if ms[i].Type == 'G' {
+							g = &ms[i]
+						}
+					}
+					wantF := int16(0)
+					if bin {
+						wantF = 1
+					}
+					ok := g != nil && int16(g.CopyFmt) == wantF && len(g.CopyCols) == n
+					if ok {
+						for _, c := range g.CopyCols {
+							ok = ok && c == wantF
+						}
+					}
+					if !ok {
+						res.Fail("copy-in-response", fmt.Sprintf("COPY into %d columns in format %d: reply %q, CopyInResponse %v", n, wantF, pgproto.Kinds(ms), g))
+					}
+					out, _ = one.Step(pgproto.Cat(pgproto.CopyDone(), pgproto.Query("copy")))
+					if k := harness.Kinds(out); !strings.HasPrefix(k, "CZ") {
+						res.Fail("copy-reply", fmt.Sprintf("COPY into %d columns completed by CopyDone: %q", n, k))
+					}
+					res.Trans = []string{"copy-start|wide table|copying"}
+					return res
+				}})
+		}
+	}
+}
+
 func c13Enumerate(tier string, emit explore.Emit) {
+	c13Wide(emit)
 	c13Binary(emit)
 	c13BinaryCut(emit)
 	payloads := c13Payloads()
